@@ -27,7 +27,7 @@ PLAN = {
     "C09": [{"engine": "gibbs", "level": "exploration",
              "quick": {"runs": 600, "budget_s": 240}, "thorough": {"runs": 30000, "budget_s": 3000}}],
     "C14": [{"engine": "chain", "level": "fault_enumeration",
-             "quick": {"runs": 3000, "budget_s": 240}, "thorough": {"runs": 60000, "budget_s": 3000}}],
+             "quick": {"runs": 2000, "budget_s": 300}, "thorough": {"runs": 60000, "budget_s": 3000}}],
     "C02": [{"engine": "mhkernel", "level": "exploration",
              "quick": {"runs": 1500, "budget_s": 240}, "thorough": {"runs": 60000, "budget_s": 3000}}],
 }
